@@ -18,6 +18,7 @@ after creation.
 """
 
 from copy import copy, deepcopy
+from numbers import Integral
 from typing import TYPE_CHECKING, Any, Union
 
 import matplotlib.pyplot as plt
@@ -642,6 +643,10 @@ class Circuit:
         """
         Maps a provided mode to the corresponding internal mode
         """
+        # Use python integers, so later mode arithmetic is exact for any
+        # integer type, e.g. unsigned numpy integers
+        if isinstance(mode, Integral) and not isinstance(mode, bool):
+            mode = int(mode)
         for i in sorted(self.__internal_modes):
             if mode >= i:
                 mode += 1
